@@ -34,8 +34,8 @@ QF_THOROUGH = [
 ] + [
     ('filters__quotientfilter.rs', 'c13_qf_insert_b2r1_f%d' % f, 'bounded(4 slots, 1-bit remainders; all 256 fingerprint sets x this fingerprint)') for f in range(8)
 ]
-QF_UNION_QUICK = [('filters__quotientfilter.rs', 'c06_qf_union_b1r1', 'bounded(2 slots, 1-bit remainders; all pairs of sets)')]
-QF_UNION_THOROUGH = [('filters__quotientfilter.rs', 'c06_qf_union_b1r2', 'bounded(2 slots, 2-bit remainders; all pairs of sets)'),
+QF_UNION_QUICK = [('filters__quotientfilter.rs', 'c06_qf_union_b1r1_a%d' % a, 'bounded(2 slots, 1-bit remainders; receiving set %d, every other set)' % a) for a in (3, 9)]
+QF_UNION_THOROUGH = [('filters__quotientfilter.rs', 'c06_qf_union_b1r1_a%d' % a, 'bounded(2 slots, 1-bit remainders; receiving set %d, every other set)' % a) for a in (0, 1, 2, 4, 5, 6, 8, 10, 12)] + [('filters__quotientfilter.rs', 'c06_qf_union_b1r2', 'bounded(2 slots, 2-bit remainders; all pairs of sets)'),
                      ('filters__quotientfilter.rs', 'c06_qf_union_b2r1', 'bounded(4 slots, 1-bit remainders; all pairs of sets)')]
 
 BLOOM_K = [('filters__bloomfilter.rs', 'c01_bloom_insert_query_step', 'bounded(m=7, k=2, 3 keys; every hash function, arbitrary bit array)'),
@@ -85,7 +85,7 @@ PROPS = {}
 PROPS['C01'] = {
     'level': 'other',
     'verus_units': ['hashiter', 'bloom', 'cuckoo'],
-    'kani': {'quick': BLOOM_K + CUCKOO_K[:1] + QF_QUICK + QF_UNION_QUICK, 'thorough': QF_THOROUGH + QF_UNION_THOROUGH},
+    'kani': {'quick': BLOOM_K + CUCKOO_K + QF_QUICK + QF_UNION_QUICK, 'thorough': QF_THOROUGH + QF_UNION_THOROUGH},
     'explanation': 'Bloom and Cuckoo: Verus proofs (unbounded in sizes, hashers, eviction outcomes) of exact whole-view contracts on the real insert/query/delete/union text + history lemmas (bits only grow; every class covers its live elements). Quotient filter: Kani one-step harnesses from EVERY canonical state of a small table (bounded in table size only, unbounded in history length). HashSet reference implementation: five delegations to std, not verified.',
     'trusted_base': COMMON_TRUST + [HASH_TRUST, INTVEC_TRUST, FBS_TRUST, PANIC_ASSERTS,
                                     'verus/prelude/rng.rs: rand::Rng as an arbitrary-value source (gen_range in [a,b), gen::<bool> arbitrary)',
@@ -125,6 +125,18 @@ PROPS['C09'] = {
     'assumptions': ['f64: epsilon == 1/width resp. width == ceil(1/epsilon), and bound == max(0, ceil((s-epsilon)*n)) are taken in real arithmetic (not verified)',
                     'floor(n/width) <= epsilon*n'],
     'not_decided': ['the harmonic-number bound on the number of tracked elements (amortised over whole histories)', 'f64 computation of `bound` in query()'],
+}
+
+PROPS['C10'] = {
+    'level': 'other',
+    'verus_units': ['cmsheap'],
+    'kani': {'quick': [], 'thorough': []},
+    'explanation': 'Verus proof on the real CMSHeap::add/new/clear/is_empty (unbounded): add never panics (unwrap on the minimum, counter arithmetic, no assertion), the exact-count map and the ordered tree hold the same (count, element) pairs, at most k of them, and exactly min(k, number of distinct elements seen) elements are held, all of which were added. The ranking clause relative to the sketch error E is NOT decided.',
+    'trusted_base': COMMON_TRUST + ['vstd HashMap<Rc<T>, usize> / entry-API specifications (obeys_key_model::<Rc<T>>() assumed)',
+                                    'BTreeSet<TreeEntry<T>> replaced by a contract-only stub EntrySet<T> (set of (n, obj) pairs ordered by TreeEntry\'s Ord; iter().next() is a minimum by n) -- TreeEntry\'s hand-written PartialEq (obj only) and Ord ((n, obj)) are inconsistent, which vstd\'s BTreeSet model cannot express',
+                                    'CountMinSketch<T> replaced by a stub whose add() returns an arbitrary estimate >= 1'],
+    'assumptions': ['stored exact counters stay below usize::MAX', 'Kani cannot execute std HashMap/BTreeSet: violations carry no-failing-input-found'],
+    'not_decided': ['ranking clause: "x is missing only if at least k other elements have true counts >= count(x) - E" (whole-history argument over sketch errors)', 'iter() (impl Iterator over the tree) is not under contract'],
 }
 
 PROPS['C11'] = {
@@ -172,7 +184,7 @@ PROPS['C13'] = {
 PROPS['C14'] = {
     'level': 'proof',
     'verus_units': ['cuckoo'],
-    'kani': {'quick': CUCKOO_K[:1], 'thorough': []},
+    'kani': {'quick': CUCKOO_K, 'thorough': []},
     'explanation': 'Verus proof, unbounded in bucketsize / n_buckets / l_fingerprint / number of kicks / RNG outcomes: fingerprint-class multiplicities cc(f, b) form the abstract multiset; insert adds exactly one copy of the class (eviction-chain invariant through all 500 kicks), reports Ok(true), len+1; delete true iff a copy is stored, removes exactly one; query iff >= 1; fewer than bucketsize elements => Ok (pigeonhole).',
     'trusted_base': COMMON_TRUST + [HASH_TRUST, INTVEC_TRUST, PANIC_ASSERTS, 'verus/prelude/rng.rs'],
     'assumptions': ['BuildHasher stable; 64-bit target'],
@@ -222,14 +234,14 @@ PROPS['C18'] = {
 
 PROPS['C19'] = {
     'level': 'other',
-    'verus_units': ['bloom', 'cuckoo', 'hll', 'reservoir', 'lossy'],
+    'verus_units': ['bloom', 'cuckoo', 'hll', 'reservoir', 'lossy', 'cmsheap'],
     'kani': {'quick': TD19 + CMS_EMPTY + CMS_MERGE[:1] + HLL_MERGE + [('filters__quotientfilter.rs', 'c19_qf_clear_is_fresh', 'bounded(4 slots, 16-bit remainders; arbitrary array contents)'),
                                                                   ('filters__cuckoofilter.rs', 'c19_cuckoo_clear_is_fresh', 'bounded(2x2 table)')],
              'thorough': []},
     'explanation': 'clear() contracts: every field that later behaviour reads equals the fresh value (hidden counters included) -- Verus for Bloom, Cuckoo, HLL, Reservoir, LossyCounter (unbounded); Kani for CMS, TDigest (n_samples!), Quotient (bounded). is_empty exactness likewise. Equal states + deterministic code => equal continuations.',
     'trusted_base': COMMON_TRUST + [INTVEC_TRUST, FBS_TRUST],
     'assumptions': ['clone(): all nine types are derive(Clone) over owned data (Rc<T> in CMSHeap is shared but T is never mutated); std Clone contracts assumed, not verified'],
-    'not_decided': ['clone() independence is not under contract', 'CMSHeap clear()'],
+    'not_decided': ['clone() independence is not under contract'],
 }
 
 PROPS['C20'] = {
@@ -249,7 +261,6 @@ NOT_APPLICABLE = {
     'C05': 'probability over the sampler RNG (inclusion probability k/n): not a relation between pre- and post-state; validity of the sample is decided under C18 (DESIGN.md section 6)',
     'C07': 'false-positive frequencies over seeds/probe sets are statistical and the sizing formulas are log2/ln on f64; not expressible as a contract the installed verifiers can discharge (DESIGN.md section 6)',
     'C08': 'fraction of (seed, element) pairs exceeding epsilon*N is a statistical statement relying on row independence; no contract over one call states it (DESIGN.md section 6)',
-    'C10': 'CMSHeap: BTreeSet<TreeEntry> with inconsistent PartialEq (obj) / Ord ((n,obj)) and HashMap<Rc<T>,_> are outside what vstd specifications can model soundly, and Kani cannot execute std HashMap/BTreeSet in useful time; only the add-never-panics defect was repaired (demos/c10_cmsheap_debug_assert.rs). See DESIGN.md section 4/C10.',
 }
 
 def _mt(text, note, technique):
@@ -267,6 +278,9 @@ MANIFEST_TEXT = {
     'C09': _mt('Verus proof that the real LossyCounter::add preserves the Lossy Counting invariant for every ghost true-count function; guarantee lemmas on top.',
                'Trusted: vstd HashMap/entry specs, std drain/filter/collect semantics (predicate text captured from source), f64 formulas for epsilon/bound taken in real arithmetic. Harmonic table bound not decided.',
                'Verus contracts on the extracted real add() + guarantee lemmas'),
+    'C10': _mt('Verus proof of the structural clauses on the real CMSHeap::add (never panics; map and tree agree; exactly min(k, distinct seen) elements, all added). The ranking clause relative to the sketch error is not decided, therefore "other".',
+               'Trusted: vstd HashMap specs, contract-only stub for BTreeSet<TreeEntry> and for the sketch. Ranking clause not decided; no counterexample engine.',
+               'Verus contracts on the extracted real add()'),
     'C11': _mt('Allocation-size contracts: Verus (unbounded) for all_zero_intvector, Bloom, Cuckoo, HLL, Reservoir; bounded Kani for CMS, Quotient, TDigest backlog.',
                'Trusted: IntVector/FixedBitSet/Vec allocation behaviour as stated in the stubs; TDigest centroid count, LossyCounter/CMSHeap growth not decided.',
                'Verus contracts on extracted real functions + Kani contract harnesses'),
